@@ -1,7 +1,914 @@
-import NimaVerif.Model.Edit
-/-! # C05 — placeholder until the theorems are in. -/
+import NimaVerif.Lemmas.EditOps
+/-!
+# C05 — a successful edit yields exactly the requested attribute change
+
+SPEC: `Model/AttrTree.lean` (`denote`, `specSet`, `specRemove`, `renderedTree`).
+The theorems relate `setValue` / `removeValue` of `Model/Edit.lean` to that spec, for every document,
+path text and value in the stated class.
+-/
 namespace Nima.C05
-theorem placeholder_rm_missing_key (d : Doc) (h : d.noTarget = some .raw) :
-    (removeValue "a".toList d).1 = .error .value := by
-  simp [removeValue, h, splitScopeNpath, resolveTarget]
+open Nima Node
+
+/-- "the value now at the path is not a reference": neither an identifier-valued binding nor an
+    inherited name. Such values make `set` write through the reference (C11). -/
+def NoRefAt (t : AttrTree) (names : List Text) : Prop :=
+  ∀ nm, treeAt t names ≠ some (.leaf (.ident nm))
+
+theorem set_plain_refines (d : Doc) (hw : WF d) (p seg : Text) (v : Node)
+    (hp : formatNPath currentAnchor p = .ok [seg])
+    (hroot : findAttrpathRoot d.target.setValues seg = none)
+    (hnoref : NoRefAt (denote d.target) [seg]) :
+    ∃ d', setValue p (.one v) d = (.ok (), d') ∧
+      specSet (denote d.target) [seg] v = some (denote d'.target) := by
+  obtain ⟨c, vs, o, m, r, ht⟩ := (isSet_iff _).mp hw.isSet
+  have hfin := finalOK_of_noref d.target d.target [] seg hw.keys rfl hw.isSet hnoref
+  obtain ⟨d', e1, e2, _, _, hd⟩ := finalSet_denote d.target d.target true [] seg v d hw.ids hw.keys rfl hw.isSet hfin.1 hfin.2
+  refine ⟨d', ?_, ?_⟩
+  · rw [setValue_unscoped p v d hw.editable (formatNPath_unscoped p _ hp)]
+    simp only [setValueInAttrset, hp, ht, setSid?, findAttrpathLeaf_single, List.isEmpty_nil, if_true]
+    rw [ht] at e1 e2 hroot
+    simp only [hroot, Option.isSome_none, Bool.false_eq_true, if_false]
+    cases hf : findBinding (Node.set c vs o m r).setValues seg with
+    | some b => exact e1 b hf
+    | none => exact e2 hf
+  · rw [hd, ht]; simp [specSet, specSetK, AttrTree.kids]
+
+theorem set_nested_explicit_refines (d : Doc) (hw : WF d) (p : Text) (seg0 seg1 : Text) (rest : List Text) (v : Node)
+    (hp : formatNPath currentAnchor p = .ok (seg0 :: seg1 :: rest))
+    (hroot : findAttrpathRoot d.target.setValues seg0 = none)
+    (hplain : ∀ k ∈ (seg0 :: seg1 :: rest).dropLast, plainKey k = true)
+    (hfresh : FreshFor d.target d.next (2 * (rest.length + 1)))
+    (hnoref : NoRefAt (denote d.target) (seg0 :: seg1 :: rest))
+    (d' : Doc) (hrun : setValue p (.one v) d = (.ok (), d')) :
+    specSet (denote d.target) (seg0 :: seg1 :: rest) v = some (denote d'.target) := by
+  obtain ⟨c, vs, o, m, r, ht⟩ := (isSet_iff _).mp hw.isSet
+  rw [setValue_unscoped p v d hw.editable (formatNPath_unscoped p _ hp)] at hrun
+  have hleaf := findAttrpathLeaf_no_root d.target seg0 (seg1 :: rest) hroot
+  rw [ht] at hleaf hroot
+  obtain ⟨final, hlast, hsplit⟩ := getLast_split (seg0 :: seg1 :: rest) (by simp)
+  have hlen : (seg0 :: seg1 :: rest).dropLast.length = rest.length + 1 := by simp
+  simp only [setValueInAttrset, hp, ht, setSid?, hleaf, hroot, List.isEmpty_cons, Bool.false_eq_true, if_false,
+    Option.isSome_none] at hrun
+  generalize (seg0 :: seg1 :: rest).dropLast = init at *
+  simp only [EditM.bind_apply, hlast] at hrun
+  cases hwk : resolveParentWalk true (Node.set c vs o m r) init d with
+  | mk res d1 =>
+    cases res with
+    | error e => simp [hwk] at hrun
+    | ok parent =>
+      simp only [hwk] at hrun
+      have hfs : FinalStep (Node.set c vs o m r) parent true final v d1 d' := by
+        constructor
+        · intro b hb; simpa [hb] using hrun
+        · intro hb; simpa [hb] using hrun
+      have hinv : Inv d.target d.next (2 * init.length) := by
+        refine ⟨hw.ids, hw.keys, ?_⟩
+        rw [hlen]; exact hfresh
+      have hfin : ∀ par, subAt d.target ([] ++ init) = some par → FinalOK par final := by
+        intro par hpar
+        cases hs : par.isSet with
+        | true =>
+          refine finalOK_of_noref d.target par init final hw.keys (by simpa using hpar) hs ?_
+          rw [hsplit]; exact hnoref
+        | false =>
+          have : par.setValues = [] := by cases par <;> simp_all [isSet, setValues]
+          exact ⟨fun b hb => by simp [this, findBinding] at hb, by simp [this, inheritMentions]⟩
+      rw [← ht] at hwk
+      obtain ⟨_, Y, hY, hd⟩ := nested_set_refines (Node.set c vs o m r) true final v _ d d.target [] parent d1 d'
+        hinv rfl hw.isSet hplain hfin hwk hfs
+      rw [hsplit] at hY
+      rw [hd, ht] at *
+      simp [specSet, AttrTree.kids] at hY ⊢
+      exact hY
+
+theorem rm_plain_refines (d : Doc) (hw : WF d) (p seg : Text)
+    (hp : formatNPath currentAnchor p = .ok [seg])
+    (hroot : findAttrpathRoot d.target.setValues seg = none)
+    (hex : (findBinding d.target.setValues seg).isSome = true) :
+    ∃ d', removeValue p d = (.ok (), d') ∧
+      specRemove (denote d.target) [seg] false = some (denote d'.target) := by
+  obtain ⟨c, vs, o, m, r, ht⟩ := (isSet_iff _).mp hw.isSet
+  rw [removeValue_unscoped p d hw.editable (formatNPath_unscoped p _ hp)]
+  rw [ht] at hroot hex
+  cases hf : findBinding (Node.set c vs o m r).setValues seg with
+  | none => simp [hf] at hex
+  | some b =>
+    obtain ⟨i, ne, val, bf, af, pre, post, rfl, hvs, hpre⟩ := findBinding_some _ _ _ hf
+    refine ⟨d.updSet c (delF i), ?_, ?_⟩
+    · simp only [removeValueInAttrset, hp, ht, findAttrpathLeaf_single, List.isEmpty_nil, if_true, hroot, hf]
+      simp [setDelItem_some _ seg c i ne val bf af d hf rfl]
+    · simp only [Doc.updSet_target]
+      rw [denote_del_at d.target hw.ids hw.keys [] c vs o m r (by rw [ht]; rfl) seg _ hf i rfl _ (delF_isDel i)]
+      rw [ht]
+      have hl : (Kids.lookup seg (denoteL vs)).isSome = true := by
+        rw [Kids.lookup_isSome_iff]
+        simp only [setValues] at hvs; subst hvs
+        simp [Kids.keys]
+      simp [specRemove, specRemoveK_single, hl]
+
+theorem rm_nested_explicit_refines (d : Doc) (hw : WF d) (p : Text) (seg0 seg1 : Text) (rest : List Text)
+    (hp : formatNPath currentAnchor p = .ok (seg0 :: seg1 :: rest))
+    (hroot : findAttrpathRoot d.target.setValues seg0 = none)
+    (hplain : ∀ k ∈ (seg0 :: seg1 :: rest).dropLast, plainKey k = true)
+    (d' : Doc) (hrun : removeValue p d = (.ok (), d')) :
+    specRemove (denote d.target) (seg0 :: seg1 :: rest) false = some (denote d'.target) := by
+  obtain ⟨c, vs, o, m, r, ht⟩ := (isSet_iff _).mp hw.isSet
+  rw [removeValue_unscoped p d hw.editable (formatNPath_unscoped p _ hp)] at hrun
+  have hleaf := findAttrpathLeaf_no_root d.target seg0 (seg1 :: rest) hroot
+  rw [ht] at hleaf hroot
+  obtain ⟨final, hlast, hsplit⟩ := getLast_split (seg0 :: seg1 :: rest) (by simp)
+  simp only [removeValueInAttrset, hp, ht, hleaf, hroot, List.isEmpty_cons, Bool.false_eq_true, if_false,
+    Option.isSome_none] at hrun
+  generalize (seg0 :: seg1 :: rest).dropLast = init at *
+  simp only [EditM.bind_apply, hlast] at hrun
+  cases hwk : resolveParentWalk false (Node.set c vs o m r) init d with
+  | mk res d1 =>
+    obtain ⟨e1, e2⟩ := resolveParentWalk_false init _ d res d1 hplain hwk
+    subst e1
+    cases res with
+    | error e => simp [hwk] at hrun
+    | ok parent =>
+      simp only [hwk] at hrun
+      obtain ⟨hsub, hps⟩ := e2 parent rfl
+      obtain ⟨pc, pvs, po, pm, pr, rfl⟩ := (isSet_iff parent).mp (hps rfl)
+      cases hf : findBinding (Node.set pc pvs po pm pr).setValues final with
+      | none => rw [setDelItem_none _ _ _ hf] at hrun; cases hrun
+      | some b =>
+        obtain ⟨i, ne, val, bf, af, pre, post, rfl, hvs, hpre⟩ := findBinding_some _ _ _ hf
+        rw [setDelItem_some _ final pc i ne val bf af d1 hf rfl] at hrun
+        injection hrun with _ hrun
+        subst hrun
+        simp only [Doc.updSet_target]
+        rw [← ht] at hsub
+        rw [denote_del_at d1.target hw.ids hw.keys init pc pvs po pm pr hsub final _ hf i rfl _ (delF_isDel i)]
+        have htp := treeAt_denote init d1.target _ hw.keys hsub
+        rw [ht] at htp ⊢
+        rw [← hsplit]
+        refine specRemove_graft final init _ _ htp ?_
+        rw [Kids.lookup_isSome_iff]
+        simp only [setValues] at hvs; subst hvs
+        simp [Kids.keys]
+
+theorem set_attrpath_root_refused (d : Doc) (hw : WF d) (p seg : Text) (v : Node)
+    (hp : formatNPath currentAnchor p = .ok [seg])
+    (hroot : (findAttrpathRoot d.target.setValues seg).isSome = true) :
+    setValue p (.one v) d = (.error .value, d) := by
+  obtain ⟨c, vs, o, m, r, ht⟩ := (isSet_iff _).mp hw.isSet
+  rw [setValue_unscoped p v d hw.editable (formatNPath_unscoped p _ hp)]
+  rw [ht] at hroot
+  simp only [setValueInAttrset, hp, ht, setSid?, findAttrpathLeaf_single, List.isEmpty_nil, if_true, hroot]
+  rfl
+
+theorem set_attrpath_leaf_refines (d : Doc) (hw : WF d) (p : Text) (segs : List Text) (v : Node)
+    (hp : formatNPath currentAnchor p = .ok segs)
+    (hleaf : (findAttrpathLeaf d.target segs).isSome = true) :
+    ∃ d', setValue p (.one v) d = (.ok (), d') ∧
+      specSet (denote d.target) segs v = some (denote d'.target) := by
+  obtain ⟨c, vs, o, m, r, ht⟩ := (isSet_iff _).mp hw.isSet
+  cases hl : findAttrpathLeaf d.target segs with
+  | none => simp [hl] at hleaf
+  | some leaf =>
+    obtain ⟨st, par0, hwalk, hlast⟩ := findAttrpathLeaf_some _ _ _ hl
+    obtain ⟨hlen, hch⟩ := walk_chain _ _ _ _ _ hw.keys hw.isSet hwalk
+    have hne : segs ≠ [] := by intro e; simp [e] at hlen
+    obtain ⟨par, i, final, val, bf, af, h1, h2, h3, h4, h5⟩ := chain_last false segs _ st hne hch hw.isSet
+    rw [hlast] at h1
+    injection h1 with h1; injection h1 with h1a h1b
+    subst h1a h1b
+    refine ⟨d.updBind i v, ?_, ?_⟩
+    · rw [setValue_unscoped p v d hw.editable (formatNPath_unscoped p _ hp)]
+      cases hs : segs with
+      | nil => exact absurd hs hne
+      | cons s0 sr =>
+        rw [hs] at hp hl
+        rw [ht] at hl
+        simp only [setValueInAttrset, hp, ht, setSid?, hl, bindId?, assign_apply]
+    · simp only [Doc.updBind_target]
+      have htp := treeAt_denote _ d.target _ hw.keys h3
+      obtain ⟨pc, pvs, po, pm, pr, rfl⟩ := (isSet_iff par0).mp h4
+      rw [denote_updBind_at v segs.dropLast d.target _ final _ i hw.ids hw.keys h3 h5 rfl,
+        graft_append _ [final] _ _ _ htp, denote_set, graft_single]
+      conv => lhs; rw [h2]
+      rw [ht] at htp ⊢
+      exact specSet_graft v final _ _ _ htp
+
+theorem set_attrpath_new_refines (d : Doc) (hw : WF d) (p : Text) (seg0 seg1 : Text) (rest : List Text) (v : Node)
+    (hp : formatNPath currentAnchor p = .ok (seg0 :: seg1 :: rest))
+    (hroot : (findAttrpathRoot d.target.setValues seg0).isSome = true)
+    (hleaf : findAttrpathLeaf d.target (seg0 :: seg1 :: rest) = none)
+    (hfresh : FreshFor d.target d.next (2 * rest.length))
+    (d' : Doc) (hrun : setValue p (.one v) d = (.ok (), d')) :
+    specSet (denote d.target) (seg0 :: seg1 :: rest) v = some (denote d'.target) := by
+  obtain ⟨c, vs, o, m, r, ht⟩ := (isSet_iff _).mp hw.isSet
+  rw [setValue_unscoped p v d hw.editable (formatNPath_unscoped p _ hp)] at hrun
+  cases hr : findAttrpathRoot d.target.setValues seg0 with
+  | none => simp [hr] at hroot
+  | some root =>
+    obtain ⟨i, val, bf, af, rfl, hm⟩ := findAttrpathRoot_some _ _ _ hr
+    have hkeys := hw.keys
+    have hfam := hw.fam
+    rw [ht] at hleaf hr hm hkeys hfam
+    simp only [setValues] at hm
+    unfold KeysOK at hkeys
+    simp only [denote_set, AttrTree.nodup_node] at hkeys
+    obtain ⟨s2, vs2, m2, r2, rfl, hfam2⟩ := famSet_child c vs o m r i seg0 val bf af hfam hm
+    have hfb := findBinding_of_mem vs seg0 i true _ bf af hkeys hm
+    have hp1 : subAt d.target [seg0] = some (.set s2 vs2 [] m2 r2) := by
+      rw [ht]; simp [subAt, stepInto, setValues, hfb, bindValue?]
+    obtain ⟨final, hlast, hsplit⟩ := getLast_split (seg0 :: seg1 :: rest) (by simp)
+    have hmid : (seg0 :: seg1 :: rest).dropLast = seg0 :: (seg1 :: rest).dropLast := by simp
+    have hlen : (seg1 :: rest).dropLast.length = rest.length := by simp
+    simp only [setValueInAttrset, hp, ht, setSid_set, hleaf, hr, List.isEmpty_cons, Bool.false_eq_true, if_false,
+      setAttrpathValue, bindValue?, List.drop_succ_cons, List.drop_zero, hlast, EditM.bind_apply] at hrun
+    generalize (seg1 :: rest).dropLast = middle at *
+    cases hwk : setAttrpathWalk (.set s2 vs2 [] m2 r2) middle d with
+    | mk res d1 =>
+      cases res with
+      | error e => simp [hwk] at hrun
+      | ok current =>
+        simp only [hwk] at hrun
+        have hfa : FinalAttr c (seg0 :: seg1 :: rest) current final v d1 d' := by
+          cases h1 : findNamedBinding current.setValues final (some true) with
+          | some b => simp [h1] at hrun
+          | none =>
+            simp only [h1, Option.isSome_none, Bool.false_eq_true, if_false] at hrun
+            refine ⟨h1, ?_, ?_⟩
+            · intro b bid hb hbid
+              simp only [hb, hbid, assign_apply] at hrun
+              injection hrun with _ hrun; exact hrun.symm
+            · intro hb csid hcs
+              simp only [hb, hcs] at hrun
+              exact hrun
+        have hinv : Inv d.target d.next (2 * middle.length) := ⟨hw.ids, hw.keys, by rw [hlen]; exact hfresh⟩
+        obtain ⟨_, Y, hY, hd⟩ := attr_set_refines c (seg0 :: seg1 :: rest) final v middle d _ [seg0] current d1 d'
+          hinv hp1 rfl hfam2 hwk hfa
+        rw [hd, ht]
+        obtain ⟨i', ne, val', bf', af', pre, post, e, hvs, hpre⟩ := findBinding_some _ _ _ hfb
+        injection e with e1 _ e2 e3 e4 e5; subst e1 e2 e3 e4 e5
+        subst hvs
+        obtain ⟨hk, _⟩ := keys_split seg0 pre post i true _ bf af hkeys
+        obtain ⟨hl, hu, _⟩ := lookup_split seg0 (denoteL pre) (denoteL post) (denote (.set s2 vs2 [] m2 r2)) hk
+        rw [← hsplit, hmid, List.cons_append]
+        simp only [denote_set, AttrTree.kids] at hY
+        have hl' : Kids.lookup seg0 (denoteL (pre ++ .bind i seg0 true (.set s2 vs2 [] m2 r2) bf af :: post)) =
+            some (.node (denoteL vs2)) := by simpa using hl
+        simp only [specSet, denote_set, graft_single]
+        rw [specSetK_node v _ _ seg0 (middle ++ [final]) (by simp) hl', hY]
+        rfl
+
+theorem rm_attrpath_refines (d : Doc) (hw : WF d) (hcoh : Coh d.target) (p : Text) (segs : List Text)
+    (hp : formatNPath currentAnchor p = .ok segs)
+    (hleaf : (findAttrpathLeaf d.target segs).isSome = true) :
+    ∃ d', removeValue p d = (.ok (), d') ∧
+      specRemove (denote d.target) segs true = some (denote d'.target) := by
+  obtain ⟨c, vs, o, m, r, ht⟩ := (isSet_iff _).mp hw.isSet
+  cases hl : findAttrpathLeaf d.target segs with
+  | none => simp [hl] at hleaf
+  | some leaf =>
+    obtain ⟨st, par0, hwalk, hlast⟩ := findAttrpathLeaf_some _ _ _ hl
+    obtain ⟨hlen, hch⟩ := walk_chain _ _ _ _ _ hw.keys hw.isSet hwalk
+    have hne : segs ≠ [] := by intro e; simp [e] at hlen
+    obtain ⟨par, lid, final, val, bf, af, h1, h2, h3, h4, h5⟩ := chain_last false segs _ st hne hch hw.isSet
+    rw [hlast] at h1
+    injection h1 with h1; injection h1 with h1a h1b
+    subst h1a h1b
+    obtain ⟨tr, htl, hloc, hsti⟩ := chain_ids segs d.target st hne hch hw.isSet hw.fam
+    obtain ⟨pc, pvs, po, pm, pr, rfl⟩ := (isSet_iff par0).mp h4
+    simp only [setValues] at h5
+    -- the state after the two removals
+    have hT1 := denote_del_at d.target hw.ids hw.keys segs.dropLast pc pvs po pm pr h3 final _ h5 lid rfl _
+      (eraseV_isDel lid)
+    have htp := treeAt_denote _ d.target _ hw.keys h3
+    have hpn := nodup_treeAt _ _ _ htp hw.keys
+    simp only [denote_set, AttrTree.nodup_node] at hpn
+    generalize hd2 : ((d.updSet pc (eraseV lid)).updSet c (entF lid)) = d2
+    have ht2 : d2.target = updSet c (entF lid) (updSet pc (eraseV lid) d.target) := by rw [← hd2]; rfl
+    have hden2 : denote d2.target =
+        graft segs.dropLast (.node (Kids.erase final (denoteL pvs))) (denote d.target) := by
+      rw [ht2, (denote_updSet_orderOnly c _ (entF_orderOnly lid) _).1, hT1]
+    have hsetT1 : (updSet pc (eraseV lid) d.target).isSet = true :=
+      isSet_updSet_shrinks pc _ (eraseV_shrinks lid) _ hw.isSet
+    obtain ⟨c1, vs1, o1, m1, r1, hT1e⟩ := (isSet_iff _).mp hsetT1
+    have hc1 : c = c1 := by
+      have := setSid_updSet_shrinks pc _ (eraseV_shrinks lid) d.target
+      rw [hT1e, ht] at this; simpa [setSid?] using this.symm
+    subst hc1
+    have hloc2 : Loc d2.target segs.dropLast tr := by
+      have hl1 := Loc_updSet_end pc _ (eraseV_shrinks lid) segs.dropLast d.target _ tr hw.ids hloc h3 rfl
+      rw [ht2, hT1e]
+      rw [hT1e] at hl1
+      refine Loc_top_congr _ _ _ _ ?_ ?_ hl1
+      · simp [updSet, entF, setSid?]
+      · simp [updSet, entF, setValues]
+    obtain ⟨d', e1, _, _, hd'⟩ := prune_loop st.dropLast.reverse tr.reverse segs.dropLast d2 hsti
+      (by simp [htl])
+      (by rw [ht2]; exact (hw.ids.sublist (vIds_updSet_shrinks pc _ (eraseV_shrinks lid) _)).sublist
+            (vIds_updSet_shrinks c _ (entF_shrinks lid) _))
+      (by unfold KeysOK; rw [hden2]
+          exact nodup_graft _ _ _ _ htp hw.keys (by simpa using AttrTree.nodupL_erase final _ hpn))
+      (by rw [ht2]; exact coh_updSet c _ (entF_shrinks lid) _ (coh_updSet pc _ (eraseV_shrinks lid) _ hcoh))
+      (by rw [← hd2]; simp [Doc.updSet, hw.scratch])
+      (by rw [ht2]; exact isSet_updSet_shrinks c _ (entF_shrinks lid) _ hsetT1)
+      (by simpa using hloc2)
+    refine ⟨d', ?_, ?_⟩
+    · rw [removeValue_unscoped p d hw.editable (formatNPath_unscoped p _ hp)]
+      cases hs : segs with
+      | nil => exact absurd hs hne
+      | cons s0 sr =>
+        rw [hs] at hp hl
+        simp only [removeValueInAttrset, hp, hl, Option.isSome_some, if_true]
+        rw [← hs, removeAttrpathValue_eq d.target segs st _ _ c pc lid d (walk_rr _ _ _ _ hwalk) hlast
+          (by rw [ht]; rfl) rfl rfl, hd2]
+        exact e1
+    · rw [hd', hden2, ht]
+      rw [ht] at htp
+      simp only [denote_set] at htp ⊢
+      conv => lhs; rw [h2]
+      simp only [specRemove]
+      rw [specRemoveK_prune final segs.dropLast _ _ htp (by
+        rw [lookup_of_findBinding pvs final lid false val bf af hpn h5]; rfl)]
+      rfl
+
+theorem set_fresh_goes_last (d : Doc) (hw : WF d) (p seg : Text) (v : Node)
+    (hp : formatNPath currentAnchor p = .ok [seg])
+    (hroot : findAttrpathRoot d.target.setValues seg = none)
+    (hnew : seg ∉ Kids.keys (denote d.target).kids) :
+    ∃ d', setValue p (.one v) d = (.ok (), d') ∧
+      d'.target.setValues = d.target.setValues ++ [.bind d.next seg false v [] []] ∧
+      d'.target.setOrder = (if d.target.setOrder.isEmpty then []
+        else d.target.setOrder ++ [.bind d.next seg false v [] []]) ∧
+      (denote d'.target).kids = (denote d.target).kids ++ [(seg, denote v)] := by
+  obtain ⟨c, vs, o, m, r, ht⟩ := (isSet_iff _).mp hw.isSet
+  rw [ht] at hroot hnew
+  simp only [denote_set, AttrTree.kids_node] at hnew
+  have hnone : findBinding (Node.set c vs o m r).setValues seg = none := by
+    cases hf : findBinding (Node.set c vs o m r).setValues seg with
+    | none => rfl
+    | some b => exact absurd (findBinding_key_mem vs seg b hf) hnew
+  obtain ⟨d', e, _, _, htd⟩ := setSetItem_fresh (Node.set c vs o m r) seg v c d hnone rfl
+  refine ⟨d', ?_, ?_⟩
+  · rw [setValue_unscoped p v d hw.editable (formatNPath_unscoped p _ hp)]
+    simp only [setValueInAttrset, hp, ht, setSid_set, findAttrpathLeaf_single, List.isEmpty_nil, if_true, hroot,
+      Option.isSome_none, Bool.false_eq_true, if_false, hnone]
+    exact e
+  · rw [htd, ht]
+    simp only [updSet, if_true, Function.comp, appF, ordF, setValues, setOrder]
+    cases o with
+    | nil => simp
+    | cons a b => simp
+
+/-- A new leaf under an attrpath root is written in attrpath form: an `_AttrpathEntry` for the whole path
+    is appended to the target's `attrpath_order` — iff that order is in use (non-empty). -/
+theorem set_attrpath_entry_appended (d : Doc) (hw : WF d) (p : Text) (seg0 seg1 : Text) (rest : List Text) (v : Node)
+    (hp : formatNPath currentAnchor p = .ok (seg0 :: seg1 :: rest))
+    (hroot : (findAttrpathRoot d.target.setValues seg0).isSome = true)
+    (hnew : treeAt (denote d.target) (seg0 :: seg1 :: rest) = none)
+    (d' : Doc) (hrun : setValue p (.one v) d = (.ok (), d')) :
+    ∃ bid final, (seg0 :: seg1 :: rest).getLast? = some final ∧
+      d'.target.setOrder.length =
+        (if d.target.setOrder.isEmpty then 0 else d.target.setOrder.length + 1) ∧
+      (d.target.setOrder.isEmpty = false →
+        d'.target.setOrder.getLast? =
+          some (.entry (seg0 :: seg1 :: rest) (.bind bid final false v [] []) none none)) := by
+  obtain ⟨c, vs, o, m, r, ht⟩ := (isSet_iff _).mp hw.isSet
+  have hleaf : findAttrpathLeaf d.target (seg0 :: seg1 :: rest) = none := by
+    cases hl : findAttrpathLeaf d.target (seg0 :: seg1 :: rest) with
+    | none => rfl
+    | some leaf =>
+      exfalso
+      obtain ⟨st, par0, hwalk, hlast⟩ := findAttrpathLeaf_some _ _ _ hl
+      obtain ⟨_, hch⟩ := walk_chain _ _ _ _ _ hw.keys hw.isSet hwalk
+      obtain ⟨par, i, final, val, bf, af, h1, h2, h3, h4, h5⟩ :=
+        chain_last false (seg0 :: seg1 :: rest) _ st (by simp) hch hw.isSet
+      have htp := treeAt_denote _ d.target _ hw.keys h3
+      obtain ⟨pc, pvs, po, pm, pr, rfl⟩ := (isSet_iff par).mp h4
+      have hn := nodup_treeAt _ _ _ htp hw.keys
+      simp only [denote_set, AttrTree.nodup_node] at hn
+      rw [h2, treeAt_append _ [final] _ _ htp] at hnew
+      simp only [denote_set, treeAt, lookup_of_findBinding pvs final i false val bf af hn h5] at hnew
+      cases hnew
+  rw [setValue_unscoped p v d hw.editable (formatNPath_unscoped p _ hp)] at hrun
+  cases hr : findAttrpathRoot d.target.setValues seg0 with
+  | none => simp [hr] at hroot
+  | some root =>
+    obtain ⟨i, val, bf, af, rfl, hm⟩ := findAttrpathRoot_some _ _ _ hr
+    have hkeys := hw.keys
+    have hfam := hw.fam
+    rw [ht] at hleaf hr hm hkeys hfam
+    simp only [setValues] at hm
+    unfold KeysOK at hkeys
+    simp only [denote_set, AttrTree.nodup_node] at hkeys
+    obtain ⟨s2, vs2, m2, r2, rfl, hfam2⟩ := famSet_child c vs o m r i seg0 val bf af hfam hm
+    have hfb := findBinding_of_mem vs seg0 i true _ bf af hkeys hm
+    have hrvn := nodup_of_mem_bind vs i seg0 true _ bf af hkeys hm
+    obtain ⟨final, hlast, hsplit⟩ := getLast_split (seg0 :: seg1 :: rest) (by simp)
+    have hmid : (seg0 :: seg1 :: rest).dropLast = seg0 :: (seg1 :: rest).dropLast := by simp
+    simp only [setValueInAttrset, hp, ht, setSid_set, hleaf, hr, List.isEmpty_cons, Bool.false_eq_true, if_false,
+      setAttrpathValue, bindValue?, List.drop_succ_cons, List.drop_zero, hlast, EditM.bind_apply] at hrun
+    generalize (seg1 :: rest).dropLast = middle at *
+    cases hwk : setAttrpathWalk (.set s2 vs2 [] m2 r2) middle d with
+    | mk res d1 =>
+      cases res with
+      | error e => simp [hwk] at hrun
+      | ok current =>
+        simp only [hwk] at hrun
+        obtain ⟨hsid1, hlen1⟩ := setAttrpathWalk_shape middle _ d d1 current hwk
+        rw [ht] at hsid1 hlen1
+        obtain ⟨vs1, o1, m1, r1, hT1⟩ := setSid_some _ _ hsid1
+        rw [hT1] at hlen1
+        simp only [setOrder] at hlen1
+        cases h1 : findNamedBinding current.setValues final (some true) with
+        | some b => simp [h1] at hrun
+        | none =>
+          simp only [h1, Option.isSome_none, Bool.false_eq_true, if_false] at hrun
+          cases h2 : findNamedBinding current.setValues final (some false) with
+          | some b =>
+            exfalso
+            obtain ⟨bi, bval, bbf, baf, rfl, hbm⟩ := findNamedBinding_some _ _ _ _ h2
+            rcases setAttrpathWalk_origin middle _ d d1 current rfl hrvn hwk with he | ⟨_, hsub⟩
+            · rw [he] at hbm; cases hbm
+            · have hsubT : subAt d.target (seg0 :: middle) = some current := by
+                rw [ht]; simp [subAt, stepInto, setValues, hfb, bindValue?, hsub]
+              have htp := treeAt_denote _ d.target _ hw.keys hsubT
+              have hcs : current.isSet = true := by
+                cases current with
+                | set _ _ _ _ _ => rfl
+                | _ => simp [setValues] at hbm
+              obtain ⟨cc, cvs, co, cm, cr, rfl⟩ := (isSet_iff current).mp hcs
+              have hn := nodup_treeAt _ _ _ htp hw.keys
+              simp only [denote_set, AttrTree.nodup_node] at hn
+              simp only [setValues] at hbm
+              rw [← hsplit, hmid, treeAt_append _ [final] _ _ htp] at hnew
+              simp only [denote_set, treeAt,
+                lookup_of_findBinding cvs final bi false bval bbf baf hn
+                  (findBinding_of_mem cvs final bi false bval bbf baf hn hbm)] at hnew
+              cases hnew
+          | none =>
+            simp only [h2] at hrun
+            cases hcs : current.setSid? with
+            | none => simp [hcs] at hrun
+            | some csid =>
+              simp only [hcs, EditM.bind_apply, fresh_apply, appendValue_eq, appendOrder_eq] at hrun
+              injection hrun with _ hrun
+              subst hrun
+              refine ⟨d1.next, final, by simp [List.getLast?_cons_cons, hlast], ?_⟩
+              simp only [Doc.updSet_target, hT1, ht, setOrder]
+              by_cases hcc : c = csid
+              · subst hcc
+                simp only [updSet, if_true, appF, ordF, setOrder]
+                cases o1 with
+                | nil =>
+                  have : o = [] := by cases o <;> simp_all
+                  subst this; simp [setOrder]
+                | cons a b =>
+                  have : o.isEmpty = false := by cases o <;> simp_all
+                  have hl' : b.length + 1 = o.length := by simpa using hlen1
+                  simp [setOrder, this, getLast_cons_snoc, hl']
+              · simp only [updSet, hcc, if_false, if_true, ordF, updSetL_eq_map]
+                cases o1 with
+                | nil =>
+                  have : o = [] := by cases o <;> simp_all
+                  subst this; simp [setOrder]
+                | cons a b =>
+                  have : o.isEmpty = false := by cases o <;> simp_all
+                  have hl' : b.length + 1 = o.length := by simpa using hlen1
+                  simp [setOrder, this, getLast_cons_snoc, hl']
+
+/-- SPEC sanity: `set` keeps attribute names unique -/
+theorem specSet_nodup (t t' : AttrTree) (names : List Text) (v : Node) (ht : t.nodup = true)
+    (hv : (denote v).nodup = true) (h : specSet t names v = some t') : t'.nodup = true := by
+  cases t with
+  | leaf x => simp [specSet] at h
+  | node kids =>
+    simp only [specSet, Option.map_eq_some_iff] at h
+    obtain ⟨k', hk, rfl⟩ := h
+    simpa using specSetK_nodup v hv names kids k' (by simpa using ht) hk
+
+/-- SPEC sanity: `rm` keeps attribute names unique -/
+theorem specRemove_nodup (t t' : AttrTree) (names : List Text) (prune : Bool) (ht : t.nodup = true)
+    (h : specRemove t names prune = some t') : t'.nodup = true := by
+  cases t with
+  | leaf x => simp [specRemove] at h
+  | node kids =>
+    simp only [specRemove, Option.map_eq_some_iff] at h
+    obtain ⟨k', hk, rfl⟩ := h
+    simpa using specRemoveK_nodup prune names kids k' (by simpa using ht) hk
+
+/-- Names stay unique across every successful edit the refinement theorems cover (one clause of `WF`). -/
+theorem keys_preserved (t : Node) (t' : Node) (hk : KeysOK t)
+    (h : (∃ names v, (denote v).nodup = true ∧ specSet (denote t) names v = some (denote t')) ∨
+         (∃ names prune, specRemove (denote t) names prune = some (denote t'))) : KeysOK t' := by
+  rcases h with ⟨names, v, hv, h⟩ | ⟨names, prune, h⟩
+  · exact specSet_nodup _ _ names v hk hv h
+  · exact specRemove_nodup _ _ names prune hk h
+
+/-! ## What the text shows
+
+`renderedTree` reads the items `AttributeSet.rebuild` renders (`attrpath_order` when non-empty, `values`
+otherwise). Where it equals `denote`, the refinement theorems above speak about the text as well. -/
+
+/-- For sets that do not use `attrpath_order` (built through the API) and whose attrpath families are
+    non-empty and hold only bindings, the rendered attributes are exactly what `denote` reads. -/
+theorem rendered_eq_denote_values (n : Node) (h : valuesMode n = true) : renderedTree n = denote n :=
+  (rendered_eq_denote_aux n h).1
+
+/-! ## Counterexamples (open known findings) -/
+
+private def A (s : String) : Node := .atom s.toList
+
+/-- `{ b = { a.p = 1; a.q = 2; }; }` exactly as the parser builds it: the nested set `b` holds the merged
+    attrpath root `a` (`nested = true`) in `values` and two `_AttrpathEntry` items in `attrpath_order`. -/
+def docNestedFamily : Doc :=
+  let leafP : Node := .bind 5 "p".toList false (A "1") [] []
+  let leafQ : Node := .bind 6 "q".toList false (A "2") [] []
+  let famA : Node := .bind 3 "a".toList true (.set 4 [leafP, leafQ] [] true false) [] []
+  let setB : Node := .set 2 [famA]
+    [.entry ["a".toList, "p".toList] leafP (some []) (some []),
+     .entry ["a".toList, "q".toList] leafQ (some []) (some [])] true false
+  let bindB : Node := .bind 1 "b".toList false setB [] []
+  { target := .set 0 [bindB] [bindB] true false, next := 7 }
+
+theorem docNestedFamily_wf : WF docNestedFamily :=
+  ⟨rfl, rfl, by decide, by decide, rfl, rfl⟩
+
+/-- FULL statement "what the text shows follows what Nix is meant to read": false of the code. -/
+def rendered_follows_full : Prop :=
+  ∀ (d : Doc) (p : Text) (d' : Doc), WF d → renderedTree d.target = denote d.target →
+    removeValue p d = (.ok (), d') → renderedTree d'.target = denote d'.target
+
+/-- Open finding C05-nested-attrpath-family: `rm b.a.p` succeeds, `values` change as specified, but the
+    nested set still renders its (unchanged) `attrpath_order`: the text is what it was. -/
+theorem cex_nested_family :
+    let d := docNestedFamily
+    let d' := (removeValue "b.a.p".toList d).2
+    (removeValue "b.a.p".toList d).1 = .ok () ∧
+    specRemove (denote d.target) ["b".toList, "a".toList, "p".toList] false = some (denote d'.target) ∧
+    renderedTree d.target = denote d.target ∧
+    renderedTree d'.target = renderedTree d.target ∧
+    renderedTree d'.target ≠ denote d'.target := by
+  refine ⟨rfl, rfl, rfl, rfl, ?_⟩
+  intro h
+  have e1 : renderedTree (removeValue "b.a.p".toList docNestedFamily).2.target =
+      .node [("b".toList, .node [("a".toList, .node [("p".toList, .leaf (A "1")), ("q".toList, .leaf (A "2"))])])] := rfl
+  have e2 : denote (removeValue "b.a.p".toList docNestedFamily).2.target =
+      .node [("b".toList, .node [("a".toList, .node [("q".toList, .leaf (A "2"))])])] := rfl
+  rw [e1, e2] at h
+  simp at h
+
+theorem cex_rendered_follows : ¬ rendered_follows_full := by
+  intro h
+  have := h docNestedFamily "b.a.p".toList (removeValue "b.a.p".toList docNestedFamily).2 docNestedFamily_wf rfl rfl
+  exact cex_nested_family.2.2.2.2 this
+
+/-- `{ inherit v; }` -/
+def docInherit : Doc :=
+  let inh : Node := .inherit 1 ["v".toList]
+  { target := .set 0 [inh] [inh] true false, next := 2 }
+
+theorem docInherit_wf : WF docInherit := ⟨rfl, rfl, by decide, by decide, rfl, rfl⟩
+
+/-- FULL statement of `set_plain_refines`, excluding only identifier-valued *bindings*: false. -/
+def set_plain_full : Prop :=
+  ∀ (d : Doc) (p seg : Text) (v : Node), WF d → formatNPath currentAnchor p = .ok [seg] →
+    findAttrpathRoot d.target.setValues seg = none →
+    (∀ b, findBinding d.target.setValues seg = some b → ∀ val, b.bindValue? = some val → isIdentNode val = false) →
+    ∃ d', setValue p (.one v) d = (.ok (), d') ∧ specSet (denote d.target) [seg] v = some (denote d'.target)
+
+/-- Open finding C05-inherit-duplicate: `set v 7` on `{ inherit v; }` appends a binding next
+    to the inherit clause; the result defines `v` twice. -/
+theorem cex_inherit_duplicate :
+    let d' := (setValue "v".toList (.one (A "7")) docInherit).2
+    (setValue "v".toList (.one (A "7")) docInherit).1 = .ok () ∧
+    (denote d'.target).nodup = false ∧
+    specSet (denote docInherit.target) ["v".toList] (A "7") ≠ some (denote d'.target) := by
+  refine ⟨rfl, rfl, ?_⟩
+  intro h
+  have e1 : specSet (denote docInherit.target) ["v".toList] (A "7") =
+      some (.node [("v".toList, .leaf (A "7"))]) := rfl
+  have e2 : denote (setValue "v".toList (.one (A "7")) docInherit).2.target =
+      .node [("v".toList, .leaf (.ident "v".toList)), ("v".toList, .leaf (A "7"))] := rfl
+  rw [e1, e2] at h
+  simp at h
+
+theorem cex_set_plain_full : ¬ set_plain_full := by
+  intro h
+  obtain ⟨d', e, hs⟩ := h docInherit "v".toList "v".toList (A "7") docInherit_wf rfl rfl
+    (fun b hb => by simp [docInherit, setValues, findBinding, isBind] at hb)
+  have h1 := cex_inherit_duplicate.2.2
+  have : d' = (setValue "v".toList (.one (A "7")) docInherit).2 := by rw [e]
+  rw [this] at hs
+  exact h1 hs
+
+/-! ## The refusal clause -/
+
+inductive Op where | set | rm
+deriving DecidableEq
+
+/-- The documented reasons for which `set` / `rm` refuse an editable document, a well-formed path and a
+    well-formed value. Nothing here mentions the wrappers around the target set. -/
+inductive DocumentedReason (d : Doc) (op : Op) (segs : List Text) : Err → Prop
+  /-- `rm` of a key that no binding defines (KeyError) -/
+  | rmMissingKey : op = .rm → bindAt d.target segs = none → DocumentedReason d op segs .key
+  /-- a value on the way is not an attribute set (ValueError) -/
+  | nonSetOnPath (j : Nat) (lf : Node) : 0 < j → j < segs.length →
+      treeAt (denote d.target) (segs.take j) = some (.leaf lf) → DocumentedReason d op segs .value
+  /-- the path starts at an attrpath root: overwriting / removing the root as a whole, or an explicit
+      binding mixed into the attrpath family (ValueError; KeyError for `rm`) -/
+  | attrpathFamily (e : Err) : (findAttrpathRoot d.target.setValues (segs.headD [])).isSome = true →
+      (e = .value ∨ (op = .rm ∧ e = .key)) → DocumentedReason d op segs e
+  /-- `@…@name` asks for more enclosing `let` layers than the document has (ValueError) -/
+  | missingScopeLayer (depth : Nat) : depth > (collectScopeLayers d).length → DocumentedReason d op segs .value
+
+/-- `set` refuses an editable document only for a documented reason. -/
+theorem refusal_set (d : Doc) (hw : WF d) (p : Text) (segs : List Text) (v : Node)
+    (hp : formatNPath currentAnchor p = .ok segs) (hplain : ∀ k ∈ segs.dropLast, plainKey k = true)
+    (e : Err) (d' : Doc) (hrun : setValue p (.one v) d = (.error e, d')) :
+    DocumentedReason d .set segs e := by
+  obtain ⟨c, vs, o, m, r, ht⟩ := (isSet_iff _).mp hw.isSet
+  have hne := formatNPath_ne_nil p segs hp
+  cases hl : (findAttrpathLeaf d.target segs).isSome with
+  | true =>
+    obtain ⟨d2, e2, _⟩ := set_attrpath_leaf_refines d hw p segs v hp hl
+    rw [e2] at hrun; cases hrun
+  | false =>
+    have hleaf : findAttrpathLeaf d.target segs = none := by
+      cases h : findAttrpathLeaf d.target segs with
+      | none => rfl
+      | some x => simp [h] at hl
+    rw [setValue_unscoped p v d hw.editable (formatNPath_unscoped p _ hp)] at hrun
+    cases hs : segs with
+    | nil => exact absurd hs hne
+    | cons seg0 rest =>
+      subst hs
+      rw [ht] at hleaf
+      cases hr : findAttrpathRoot d.target.setValues seg0 with
+      | some root =>
+        refine .attrpathFamily e (by simp [hr]) (Or.inl ?_)
+        rw [ht] at hr
+        cases rest with
+        | nil =>
+          simp only [setValueInAttrset, hp, ht, setSid_set, hleaf, List.isEmpty_nil, if_true, hr,
+            Option.isSome_some, EditM.throw_apply] at hrun
+          injection hrun with h1 _; injection h1 with h1; exact h1.symm
+        | cons seg1 rest2 =>
+          obtain ⟨final, hlast, _⟩ := getLast_split (seg0 :: seg1 :: rest2) (by simp)
+          simp only [setValueInAttrset, hp, ht, setSid_set, hleaf, hr, List.isEmpty_cons, Bool.false_eq_true,
+            if_false, setAttrpathValue] at hrun
+          cases hv : root.bindValue? with
+          | none => simp only [hv, EditM.throw_apply] at hrun; injection hrun with h1 _; injection h1 with h1; exact h1.symm
+          | some rv =>
+            cases hrs : rv.isSet with
+            | false =>
+              cases rv <;> simp [isSet] at hrs <;>
+                (simp only [hv, EditM.throw_apply] at hrun; injection hrun with h1 _; injection h1 with h1; exact h1.symm)
+            | true =>
+              obtain ⟨s2, vs2, o2, m2, r2, rfl⟩ := (isSet_iff rv).mp hrs
+              simp only [hv, EditM.bind_apply, hlast] at hrun
+              rcases setAttrpathWalk_res ((seg0 :: seg1 :: rest2).drop 1).dropLast (.set s2 vs2 o2 m2 r2) d rfl with
+                ⟨current, d1, ew, hcs⟩ | ⟨d1, ew⟩
+              · simp only [ew] at hrun
+                obtain ⟨cc, cvs, co, cm, cr, rfl⟩ := (isSet_iff current).mp hcs
+                by_cases h1 : (findNamedBinding (Node.set cc cvs co cm cr).setValues final (some true)).isSome = true
+                · simp only [h1, if_true, EditM.throw_apply] at hrun
+                  injection hrun with h1 _; injection h1 with h1; exact h1.symm
+                · simp only [h1] at hrun
+                  cases h2 : findNamedBinding (Node.set cc cvs co cm cr).setValues final (some false) with
+                  | some b =>
+                    simp only [h2] at hrun
+                    cases hb : b.bindId? with
+                    | none => simp [hb] at hrun
+                    | some bid => simp [hb] at hrun
+                  | none =>
+                    simp only [h2, setSid_set] at hrun
+                    cases hrun
+              · simp only [ew] at hrun
+                injection hrun with h1 _; injection h1 with h1; exact h1.symm
+      | none =>
+        rw [ht] at hr
+        cases rest with
+        | nil =>
+          exfalso
+          simp only [setValueInAttrset, hp, ht, setSid_set, hleaf, List.isEmpty_nil, if_true, hr,
+            Option.isSome_none, Bool.false_eq_true, if_false] at hrun
+          cases hf : findBinding (Node.set c vs o m r).setValues seg0 with
+          | some b =>
+            obtain ⟨d2, e2⟩ := assignExisting_ok (.set c vs o m r) (.set c vs o m r) true b v d
+            simp only [hf, e2] at hrun; cases hrun
+          | none =>
+            obtain ⟨d2, e2⟩ := setSetItem_ok (.set c vs o m r) seg0 v d rfl
+            simp only [hf, e2] at hrun; cases hrun
+        | cons seg1 rest2 =>
+          obtain ⟨final, hlast, hsplit⟩ := getLast_split (seg0 :: seg1 :: rest2) (by simp)
+          have hlen : (seg0 :: seg1 :: rest2).dropLast.length < (seg0 :: seg1 :: rest2).length := by simp
+          have hkn : (denote (Node.set c vs o m r)).nodup = true := by rw [← ht]; exact hw.keys
+          simp only [setValueInAttrset, hp, ht, setSid_set, hleaf, hr, List.isEmpty_cons, Bool.false_eq_true,
+            if_false, Option.isSome_none, EditM.bind_apply, hlast] at hrun
+          cases hwk : resolveParentWalk true (Node.set c vs o m r) (seg0 :: seg1 :: rest2).dropLast d with
+          | mk res d1 =>
+            cases res with
+            | error e1 =>
+              simp only [hwk] at hrun
+              injection hrun with h1 _; injection h1 with h1; subst h1
+              rcases resolveParentWalk_fail true _ _ d d1 e1 hplain rfl hkn hwk with ⟨he, j, hj, lf, htr⟩ | ⟨hc, _⟩
+              · subst he
+                refine .nonSetOnPath (j + 1) lf (by omega) (by omega) ?_
+                rw [ht, ← take_dropLast _ (j + 1) (by omega)]; exact htr
+              · cases hc
+            | ok parent =>
+              exfalso
+              simp only [hwk] at hrun
+              cases hf : findBinding parent.setValues final with
+              | some b =>
+                obtain ⟨d2, e2⟩ := assignExisting_ok (.set c vs o m r) parent true b v d1
+                simp only [hf, e2] at hrun; cases hrun
+              | none =>
+                have hps : parent.isSet = true := resolveParentWalk_isSet true _ _ d d1 parent rfl hwk
+                obtain ⟨d2, e2⟩ := setSetItem_ok parent final v d1 hps
+                simp only [hf, e2] at hrun; cases hrun
+
+/-- `rm` refuses an editable document only for a documented reason. -/
+theorem refusal_rm (d : Doc) (hw : WF d) (hcoh : Coh d.target) (p : Text) (segs : List Text)
+    (hp : formatNPath currentAnchor p = .ok segs) (hplain : ∀ k ∈ segs.dropLast, plainKey k = true)
+    (e : Err) (d' : Doc) (hrun : removeValue p d = (.error e, d')) :
+    DocumentedReason d .rm segs e := by
+  obtain ⟨c, vs, o, m, r, ht⟩ := (isSet_iff _).mp hw.isSet
+  have hne := formatNPath_ne_nil p segs hp
+  cases hl : (findAttrpathLeaf d.target segs).isSome with
+  | true =>
+    obtain ⟨d2, e2, _⟩ := rm_attrpath_refines d hw hcoh p segs hp hl
+    rw [e2] at hrun; cases hrun
+  | false =>
+    rw [removeValue_unscoped p d hw.editable (formatNPath_unscoped p _ hp)] at hrun
+    rw [ht] at hl hrun
+    cases hs : segs with
+    | nil => exact absurd hs hne
+    | cons seg0 rest =>
+      subst hs
+      cases hr : findAttrpathRoot d.target.setValues seg0 with
+      | some root =>
+        refine .attrpathFamily e (by simp [hr]) ?_
+        rw [ht] at hr
+        cases rest with
+        | nil =>
+          simp only [removeValueInAttrset, hp, hl, Bool.false_eq_true, if_false, List.isEmpty_nil, if_true, hr,
+            Option.isSome_some, EditM.throw_apply] at hrun
+          injection hrun with h1 _; injection h1 with h1; exact Or.inr ⟨rfl, h1.symm⟩
+        | cons seg1 rest2 =>
+          simp only [removeValueInAttrset, hp, hl, Bool.false_eq_true, if_false, List.isEmpty_cons, hr,
+            Option.isSome_some, if_true, removeAttrpathValue] at hrun
+          rcases walk_true_res (Node.set c vs o m r) (seg0 :: seg1 :: rest2) false with ⟨st, h1, h2⟩ | h1 | h1
+          · exfalso
+            have hn : (denote (Node.set c vs o m r)).nodup = true := by rw [← ht]; exact hw.keys
+            obtain ⟨_, hch⟩ := walk_chain _ _ _ _ _ hn rfl h2
+            obtain ⟨par, i, final, val, bf, af, g1, _⟩ := chain_last false _ _ st (by simp) hch rfl
+            simp [findAttrpathLeaf, h2, g1] at hl
+          · simp only [h1, EditM.throw_apply] at hrun
+            injection hrun with g _; injection g with g; exact Or.inr ⟨rfl, g.symm⟩
+          · simp only [h1, EditM.throw_apply] at hrun
+            injection hrun with g _; injection g with g; exact Or.inl g.symm
+      | none =>
+        rw [ht] at hr
+        cases rest with
+        | nil =>
+          simp only [removeValueInAttrset, hp, hl, Bool.false_eq_true, if_false, List.isEmpty_nil, if_true, hr,
+            Option.isSome_none] at hrun
+          cases hf : findBinding (Node.set c vs o m r).setValues seg0 with
+          | some b =>
+            exfalso
+            obtain ⟨i, ne, val, bf, af, _, _, rfl, _, _⟩ := findBinding_some _ _ _ hf
+            simp only [hf, Option.isNone_some, Bool.false_eq_true, if_false,
+              setDelItem_some _ seg0 c i ne val bf af d hf rfl] at hrun
+            cases hrun
+          | none =>
+            simp only [hf, Option.isNone_none, if_true, EditM.throw_apply] at hrun
+            injection hrun with h1 _; injection h1 with h1; subst h1
+            exact .rmMissingKey rfl (by rw [ht]; simp [bindAt, hf])
+        | cons seg1 rest2 =>
+          obtain ⟨final, hlast, hsplit⟩ := getLast_split (seg0 :: seg1 :: rest2) (by simp)
+          have hkn : (denote (Node.set c vs o m r)).nodup = true := by rw [← ht]; exact hw.keys
+          simp only [removeValueInAttrset, hp, hl, Bool.false_eq_true, if_false, List.isEmpty_cons, hr,
+            Option.isSome_none, EditM.bind_apply, hlast] at hrun
+          cases hwk : resolveParentWalk false (Node.set c vs o m r) (seg0 :: seg1 :: rest2).dropLast d with
+          | mk res d1 =>
+            cases res with
+            | error e1 =>
+              simp only [hwk] at hrun
+              injection hrun with h1 _; injection h1 with h1; subst h1
+              rcases resolveParentWalk_fail false _ _ d d1 e1 hplain rfl hkn hwk with ⟨he, j, hj, lf, htr⟩ | ⟨_, he, hb⟩
+              · subst he
+                have hlen : (seg0 :: seg1 :: rest2).dropLast.length < (seg0 :: seg1 :: rest2).length := by simp
+                refine .nonSetOnPath (j + 1) lf (by omega) (by omega) ?_
+                rw [ht, ← take_dropLast _ (j + 1) (by omega)]; exact htr
+              · subst he
+                refine .rmMissingKey rfl ?_
+                rw [ht, ← hsplit]; exact hb final
+            | ok parent =>
+              simp only [hwk] at hrun
+              obtain ⟨e1, e2⟩ := resolveParentWalk_false _ _ d (.ok parent) d1 hplain hwk
+              obtain ⟨hsub, hps⟩ := e2 parent rfl
+              cases hf : findBinding parent.setValues final with
+              | some b =>
+                exfalso
+                obtain ⟨i, ne, val, bf, af, _, _, rfl, _, _⟩ := findBinding_some _ _ _ hf
+                obtain ⟨pc, pvs, po, pm, pr, rfl⟩ := (isSet_iff parent).mp (hps rfl)
+                rw [setDelItem_some _ final pc i ne val bf af d1 hf rfl] at hrun
+                cases hrun
+              | none =>
+                rw [setDelItem_none _ _ _ hf] at hrun
+                injection hrun with h1 _; injection h1 with h1; subst h1
+                refine .rmMissingKey rfl ?_
+                rw [ht, ← hsplit, bindAt_snoc _ final _ parent hsub]; exact hf
+
+/-- A scope selector that reaches beyond the outermost `let` layer is refused (and the only layer `set`
+    creates by itself is the first one of a document that has none). -/
+theorem refusal_scope_set (d : Doc) (hed : d.noTarget = none) (p rest : Text) (depth : Nat) (v : Node)
+    (hs : splitScopeNpath p = .ok (some (depth, rest)))
+    (hnc : ¬ ((collectScopeLayers d).isEmpty = true ∧ depth = 1))
+    (hd : depth > (collectScopeLayers d).length) (segs : List Text) :
+    setValue p (.one v) d = (.error .value, d) ∧ DocumentedReason d .set segs .value := by
+  refine ⟨?_, .missingScopeLayer depth hd⟩
+  have hnc' : ((collectScopeLayers d).isEmpty && depth == 1) = false := by
+    cases h1 : (collectScopeLayers d).isEmpty <;> cases h2 : (depth == 1) <;> simp_all
+  simp only [setValue, hed, hs, resolveTarget, hnc', Bool.false_eq_true, if_false, hd, if_true]
+
+theorem refusal_scope_rm (d : Doc) (hed : d.noTarget = none) (p rest : Text) (depth : Nat)
+    (hs : splitScopeNpath p = .ok (some (depth, rest)))
+    (hd : depth > (collectScopeLayers d).length) (segs : List Text) :
+    removeValue p d = (.error .value, d) ∧ DocumentedReason d .rm segs .value := by
+  refine ⟨?_, .missingScopeLayer depth hd⟩
+  simp only [removeValue, hed, hs, resolveTarget, hd, if_true]
+
+/-! ## Non-vacuity: a document with an explicit binding, an explicit nested set and a top-level attrpath
+family meets the hypotheses of every theorem above. -/
+
+/-- `{ a = 1; b = { c = 2; }; x.y = 3; }` as the parser builds it -/
+def docEx : Doc :=
+  let leafY : Node := .bind 8 "y".toList false (.atom "3".toList) [] []
+  let famX : Node := .bind 6 "x".toList true (.set 7 [leafY] [] true false) [] []
+  let bindC : Node := .bind 5 "c".toList false (.atom "2".toList) [] []
+  let bindB : Node := .bind 3 "b".toList false (.set 4 [bindC] [bindC] false false) [] []
+  let bindA : Node := .bind 2 "a".toList false (.atom "1".toList) [] []
+  { target := .set 1 [bindA, bindB, famX]
+      [bindA, bindB, .entry ["x".toList, "y".toList] leafY (some []) (some [])] true false, next := 9 }
+
+theorem docEx_wf : WF docEx := ⟨rfl, rfl, by decide, by decide, rfl, rfl⟩
+
+theorem docEx_coh : Coh docEx.target := by
+  intro a ha b hb h
+  simp only [docEx, occS, occSL, List.mem_cons, List.mem_append, List.not_mem_nil, or_false,
+    List.append_nil, List.nil_append] at ha hb
+  rcases ha with rfl | (rfl | rfl) | rfl <;> rcases hb with rfl | (rfl | rfl) | rfl <;>
+    first | rfl | (simp [setSid?] at h)
+
+example : ∃ d', setValue "a".toList (.one (.atom "5".toList)) docEx = (.ok (), d') ∧
+    specSet (denote docEx.target) ["a".toList] (.atom "5".toList) = some (denote d'.target) :=
+  set_plain_refines docEx docEx_wf "a".toList "a".toList _ rfl rfl (by
+    intro nm h
+    have h' : some (AttrTree.leaf (.atom "1".toList)) = some (AttrTree.leaf (.ident nm)) := h
+    simp at h')
+
+example : (setValue "b.e".toList (.one (.atom "5".toList)) docEx).1 = .ok () := rfl
+example : ∀ d', setValue "b.d.e".toList (.one (.atom "5".toList)) docEx = (.ok (), d') →
+    specSet (denote docEx.target) ["b".toList, "d".toList, "e".toList] (.atom "5".toList) =
+    some (denote d'.target) :=
+  set_nested_explicit_refines docEx docEx_wf "b.d.e".toList "b".toList "d".toList ["e".toList] _ rfl rfl
+    (by intro k hk; simp at hk; rcases hk with rfl | rfl <;> exact plainKey_ident _ (by decide))
+    (by decide)
+    (by intro nm h; cases (h : (none : Option AttrTree) = some _))
+
+example : (setValue "x.z".toList (.one (.atom "5".toList)) docEx).1 = .ok () := rfl
+example : ∀ d', setValue "x.z".toList (.one (.atom "5".toList)) docEx = (.ok (), d') →
+    specSet (denote docEx.target) ["x".toList, "z".toList] (.atom "5".toList) = some (denote d'.target) :=
+  set_attrpath_new_refines docEx docEx_wf "x.z".toList "x".toList "z".toList [] _ rfl rfl rfl (by decide)
+
+example : ∃ d', removeValue "x.y".toList docEx = (.ok (), d') ∧
+    specRemove (denote docEx.target) ["x".toList, "y".toList] true = some (denote d'.target) :=
+  rm_attrpath_refines docEx docEx_wf docEx_coh "x.y".toList ["x".toList, "y".toList] rfl rfl
+
+example : (removeValue "b.c".toList docEx).1 = .ok () := rfl
+example : ∀ d', removeValue "b.c".toList docEx = (.ok (), d') →
+    specRemove (denote docEx.target) ["b".toList, "c".toList] false = some (denote d'.target) :=
+  rm_nested_explicit_refines docEx docEx_wf "b.c".toList "b".toList "c".toList [] rfl rfl
+    (by intro k hk; simp at hk; subst hk; exact plainKey_ident _ (by decide))
+
+/-- pruning really happens: removing the only leaf of `x` removes `x`; removing the only binding of the
+    explicit set `b` leaves `b = { }` -/
+example : (denote (removeValue "x.y".toList docEx).2.target).kids.map (·.1) = ["a".toList, "b".toList] := rfl
+example : (denote (removeValue "b.c".toList docEx).2.target).kids.map (·.1) =
+    ["a".toList, "b".toList, "x".toList] := rfl
+
+/-- a refusal and its documented reason -/
+example : (setValue "a.q".toList (.one (.atom "5".toList)) docEx).1 = .error .value := rfl
+example : ∀ e d', setValue "a.q".toList (.one (.atom "5".toList)) docEx = (.error e, d') →
+    DocumentedReason docEx .set ["a".toList, "q".toList] e :=
+  refusal_set docEx docEx_wf "a.q".toList ["a".toList, "q".toList] (.atom "5".toList) rfl
+    (by intro k hk; simp at hk; subst hk; exact plainKey_ident _ (by decide))
+
+example : ∀ d', setValue "x.z".toList (.one (.atom "5".toList)) docEx = (.ok (), d') →
+    ∃ bid final, ["x".toList, "z".toList].getLast? = some final ∧
+      d'.target.setOrder.length = (if docEx.target.setOrder.isEmpty then 0 else docEx.target.setOrder.length + 1) ∧
+      (docEx.target.setOrder.isEmpty = false → d'.target.setOrder.getLast? =
+        some (.entry ["x".toList, "z".toList] (.bind bid final false (.atom "5".toList) [] []) none none)) :=
+  set_attrpath_entry_appended docEx docEx_wf "x.z".toList "x".toList "z".toList [] _ rfl rfl rfl
+
 end Nima.C05
